@@ -358,7 +358,7 @@ class uint16(int, FieldType):
         if value < 0 or value > 0xFFFF:
             raise ValueError("Value not within (0x0, 0xffff), got: {}".format(value))
 
-        self.value = value
+        self.value = int(self)
 
     def _pack(self):
         return self.value
@@ -374,7 +374,7 @@ class uint32(int, FieldType):
         if value < 0 or value > 0xFFFFFFFF:
             raise ValueError("Value not within (0x0, 0xffffffff), got {}".format(value))
 
-        self.value = value
+        self.value = int(self)
 
     def _pack(self):
         return self.value
